@@ -188,6 +188,13 @@ where
             .as_ref()
             .ok_or(PlanningError::PlannerUninitialised)?;
         let goal = &pd.goal;
+        let vc = self
+            .validity_checker
+            .as_ref()
+            .ok_or(PlanningError::PlannerUninitialised)?;
+        if !vc.is_valid(&pd.start_states[0]) {
+            return Err(PlanningError::InvalidStartState);
+        }
 
         let start_time = Instant::now();
         let mut rng = self
